@@ -326,6 +326,21 @@ for _p in ("C02", "C03", "C05"):
         "applied to every implementation trace. Outside a trace's reach: that no statement is skipped (a silent Condition and "
         "a zero-iteration loop look like a skipped statement) - this stays with the denotation / confluence theorems and the "
         "literal trace comparison.")
+CLAIMS["C03"]["text"] += (
+    " FORK / JOIN, all schedules (MonitorsFork.v, RefC03.v, Properties/C03fork.v): every trace of the reference semantics "
+    "satisfies mon_C03fork (C03_fork_programs): the task-started notifications of ALL branches of a Parallel appear in one "
+    "call, in source order, nothing else of the instance starts in between and no call ends with a fork open; nothing but "
+    "further branches starts in the instance while a branch is in progress; the call in which the last branch finishes also "
+    "starts what follows (or finishes the instance). On the refinement fragment the faithful net model's traces satisfy it too "
+    "(net_C03_fragment). mon_C03 = mon_C02seq && mon_C03fork is applied to every implementation trace.")
+CLAIMS["C06"]["text"] += (
+    " INSTANCES, all schedules (MonitorsFork.v, RefC03.v, Properties/C06inst.v): every trace of the reference semantics "
+    "satisfies mon_C06inst (C06_inst_programs): all instances of one execution of a parallel loop start in one call; with a "
+    "limit read from a variable exactly N instances are started, N being the oracle's answer to the query that immediately "
+    "precedes the first instance (the limit is read once, there: FQ_limit); with a literal limit a multiple of it; the call in "
+    "which the last instance finishes starts what follows. Not visible in a trace: the index bound to the counting variable "
+    "(only through indexed call parameters - compared literally by the correspondence and proved under the re-entrant schedule) "
+    "and N <= 0. mon_C06 = mon_C02seq && mon_C06inst is applied to every implementation trace.")
 CLAIMS["C04"]["text"] += (
     " ADDITIONALLY PROVED for ALL schedules and histories (RefC04.v, Properties/C04ctx.v): every variable query names a task "
     "instance that has been announced started and not yet finished at that moment (C04_query_context_ref, monitor "
